@@ -24,6 +24,7 @@ func init() {
 func runC09(c *Ctx) {
 	c.Rule("R9.1", 1, "no unconsumed input: success requires Remaining == nil")
 	c.Rule("R9.2", 34, "semantic validation is present, heard, and the sibling mapper sets agree")
+	c.Rule("R9.4", 1, "a count that does not fit into an int is rejected, not wrapped around")
 	c.Rule("R9.3", 3, "the escape list equals the documented one and is used on both sides")
 
 	pp := c.Pkg("internal/regex/parser")
@@ -37,6 +38,7 @@ func runC09(c *Ctx) {
 	}
 	checkSiblingMappers(c, "R9.2")
 	checkEscapeList(c, pp)
+	checkDigitAccumulation(c, "R9.4", "internal/regex/parser")
 }
 
 // checkRemaining: R9.1
@@ -557,6 +559,34 @@ func mapperSkeleton(p *packages.Package, fd *ast.FuncDecl) []string {
 					set["rejects"] = true
 				}
 			}
+		case *ast.IfStmt:
+			// what the mapper tests: the atoms of its conditions, abstracted from spelling, order and polarity
+			// (only conditions that decide on a rejection or on an error being recorded)
+			validating := false
+			look := func(n ast.Node) bool {
+				switch y := n.(type) {
+				case *ast.ReturnStmt:
+					if len(y.Results) == 2 {
+						if tv, ok := info.Types[y.Results[1]]; ok && tv.Value != nil && tv.Value.String() == "false" {
+							validating = true
+						}
+					}
+				case *ast.CallExpr:
+					if fo, ok := objOf(info, y.Fun).(*types.Func); ok && fo.Pkg() != nil && (fo.Pkg().Path() == "fmt" || fo.Pkg().Path() == "errors") {
+						validating = true
+					}
+				}
+				return true
+			}
+			ast.Inspect(s.Body, look)
+			if s.Else != nil {
+				ast.Inspect(s.Else, look)
+			}
+			if validating {
+				for _, a := range condAtoms(info, s.Cond, abstractType) {
+					set["tests:"+a] = true
+				}
+			}
 		}
 		return true
 	})
@@ -777,4 +807,84 @@ func mappersTypeName(p *packages.Package) string {
 func isErrField(info *types.Info, sel *ast.SelectorExpr) bool {
 	v, ok := info.Uses[sel.Sel].(*types.Var)
 	return ok && v.IsField() && isErr(v.Type())
+}
+
+
+// condAtoms splits a condition at && and ||, strips negations, and abstracts every atom: a boolean variable by where it
+// was defined (comma-ok of a map index, of a type assertion, or a call), a comparison by its operator class and the kinds of
+// its operands (len(...), constant, nil, a value of some type). An atom that is none of these is "opaque".
+func condAtoms(info *types.Info, e ast.Expr, abstractType func(types.Type) string) []string {
+	var out []string
+	var operand func(e ast.Expr) string
+	operand = func(e ast.Expr) string {
+		e = ast.Unparen(e)
+		if tv, ok := info.Types[e]; ok {
+			if tv.IsNil() {
+				return "nil"
+			}
+			if tv.Value != nil {
+				return "const " + tv.Value.String()
+			}
+		}
+		switch x := e.(type) {
+		case *ast.CallExpr:
+			if id, ok := x.Fun.(*ast.Ident); ok && (id.Name == "len" || id.Name == "cap") {
+				if _, isB := info.Uses[id].(*types.Builtin); isB {
+					return "len"
+				}
+			}
+			return "call"
+		case *ast.StarExpr:
+			return operand(x.X)
+		}
+		if t := info.TypeOf(e); t != nil {
+			if p, ok := t.(*types.Pointer); ok {
+				return abstractType(p.Elem())
+			}
+			return abstractType(t)
+		}
+		return "?"
+	}
+	var walk func(e ast.Expr)
+	walk = func(e ast.Expr) {
+		e = ast.Unparen(e)
+		switch x := e.(type) {
+		case *ast.BinaryExpr:
+			switch x.Op {
+			case token.LAND, token.LOR:
+				walk(x.X)
+				walk(x.Y)
+				return
+			case token.EQL, token.NEQ:
+				a, b := operand(x.X), operand(x.Y)
+				if a > b {
+					a, b = b, a
+				}
+				out = append(out, "eq("+a+","+b+")")
+				return
+			case token.LSS, token.GTR, token.LEQ, token.GEQ:
+				a, b := operand(x.X), operand(x.Y)
+				if a > b {
+					a, b = b, a
+				}
+				out = append(out, "order("+a+","+b+")")
+				return
+			}
+		case *ast.UnaryExpr:
+			if x.Op == token.NOT {
+				walk(x.X)
+				return
+			}
+		case *ast.Ident:
+			if o, ok := info.Uses[x].(*types.Var); ok {
+				if b, isB := o.Type().Underlying().(*types.Basic); isB && b.Kind() == types.Bool {
+					out = append(out, "flag")
+					return
+				}
+			}
+		}
+		out = append(out, "opaque")
+	}
+	walk(e)
+	return out
 }
